@@ -99,16 +99,14 @@ func runBounds(r *Run, cfg boundsConfig) {
 				continue
 			}
 			if st.TwoSym {
-				r.Stats["two_symbolic_bound_slices_not_analysed"]++
-				r.Note("not analysed (slice with two symbolic bounds, needs a relational loop invariant): %s at %s", construct, r.P.Pos(st.Node.Pos()))
-				continue
+				r.Stats["two_symbolic_bound_slices"]++
 			}
 			var miss []string
 			for _, gi := range missing {
 				miss = append(miss, st.GoalDs[gi])
 			}
 			o := r.Ob(cfg.rule, construct, st.Node.Pos())
-			o.Bad("no guard on every path implies %s (facts at the site: %s) %s", strings.Join(miss, " and "), factList(st.state), strings.Join(liftNotes, " | "))
+			o.Bad("no guard on every path implies %s (facts at the site: %s) %s [key %s]", strings.Join(miss, " and "), factList(st.state), strings.Join(liftNotes, " | "), ekey)
 		}
 	}
 	for _, e := range cfg.exceptions {
